@@ -316,6 +316,10 @@ func (e *Exec) doAppend(fr *Frame, st *State, x *ssa.Call) Value {
 		return e.def(SSl, res)
 	}
 	comp := "A_" + sortKey(es)
+	if e.Opt.NoArgWrite && es == SObj {
+		// append in place writes into the backing array of s: it must be this activation's own
+		e.oblige(st, "frame:append", render(x, 0), Implies(And(inplace, Lt(IntLit(0), tl)), Le(e.heapRead(e.entry, "$alloc", SInt), sid)), e.posOf(x), sid, slen, scap)
+	}
 	h := e.heapRead(st, comp, ArrSort(ArrSort(es)))
 	old := Select(h, sid)
 	src := Select(h, App(SInt, "sl-id", t))
@@ -374,6 +378,9 @@ func (e *Exec) doCopy(fr *Frame, st *State, x *ssa.Call) Value {
 		return n
 	}
 	s := e.term(fr, st, args[1])
+	if e.Opt.NoArgWrite && es == SObj {
+		e.oblige(st, "frame:copy", render(x, 0), Implies(Lt(IntLit(0), n), Le(e.heapRead(e.entry, "$alloc", SInt), App(SInt, "sl-id", d))), e.posOf(x), App(SInt, "sl-id", d))
+	}
 	h := e.heapRead(st, comp, ArrSort(ArrSort(es)))
 	did, doff := App(SInt, "sl-id", d), App(SInt, "sl-off", d)
 	old := Select(h, did)
